@@ -1,6 +1,5 @@
 //! Layer K harnesses for derive(Collect) (C15): the OUTPUT of the real derive of the current tree, for a corpus of type shapes, reports to a
-//! recording Trace exactly the pointers of the active variant minus `require_static` fields, each with the right strength, in declaration
-//! order; NEEDS_TRACE equals the disjunction over traced field types.  Each row is complete in the field VALUES; the corpus is a sample of
+//! recording Trace exactly the pointers of the active variant minus `require_static` fields, each with the right strength (order not compared); NEEDS_TRACE equals the disjunction over traced field types.  Each row is complete in the field VALUES; the corpus is a sample of
 //! SHAPES (bounded(corpus)): named / tuple / unit structs, enums with mixed variants, generics with and without `bound`, nested containers,
 //! `require_static` at the first / middle / last position and inside an enum variant, explicit gc_lifetime.
 extern crate std;
@@ -33,12 +32,7 @@ enum Mixed<'gc> { Unit, Tup(G<'gc>, W<'gc>), Named { x: u8, p: G<'gc>, #[collect
 #[derive(crate::Collect)] #[collect(require_static)] struct WholeStatic { o: Opaque }
 
 fn nt<'gc, T: Collect<'gc> + ?Sized>() -> bool { T::NEEDS_TRACE }
-fn eq(r: &Rec, s: &[usize], w: &[usize]) -> bool {
-    if r.ns != s.len() || r.nw != w.len() { return false; }
-    let mut i = 0; while i < s.len() { if r.s[i] != s[i] { return false; } i += 1; }
-    let mut i = 0; while i < w.len() { if r.w[i] != w[i] { return false; } i += 1; }
-    true
-}
+fn eq(r: &Rec, s: &[usize], w: &[usize]) -> bool { crate::collect_impl::verif_kani::same(r, s, w) }
 
 #[kani::proof]
 #[kani::unwind(6)]
